@@ -267,6 +267,13 @@ def _extras():
     E["Diag(5,1)"] = lambda: pylops.Diagonal(zoo.ivec("c04d51", 5).reshape(5, 1))
     E["Diag(1,5)"] = lambda: pylops.Diagonal(zoo.ivec("c04d15", 5).reshape(1, 5))
     E["MatrixMult-otherdims"] = lambda: pylops.MatrixMult(zoo.ivec("c04mm", 6).reshape(3, 2), otherdims=(2, 2))
+    for ff in (None, True, False):
+        E["I54/ff=%s" % ff] = lambda ff=ff: pylops.Identity((5, 4), forceflat=ff)
+    E["D54"] = lambda: pylops.FirstDerivative((5, 4), axis=0)
+    E["Diag223"] = lambda: _nd_leaf(14, (2, 2, 3))
+    E["Restriction54"] = lambda: pylops.Restriction((5, 4), [0, 2, 3], axis=1)
+    E["MatrixMult32"] = lambda: pylops.MatrixMult((zoo.ivec("c04mm32", 24).reshape(4, 6) / 3).astype("float32"), dtype="float32")
+    E["Diagonal32"] = lambda: pylops.Diagonal((zoo.ivec("c04d32", 7) / 3).astype("float32"), dtype="float32")
     E["FunctionOperator"] = lambda: pylops.FunctionOperator(lambda x: 2 * x[:3], lambda y: 2 * np.concatenate([y, np.zeros((2,) + y.shape[1:])]), 3, 5)
     return E
 
@@ -398,7 +405,59 @@ def compound_specs(leaves, tier):
     nsums = 20 if tier == "quick" else 120
     for j, (s, t) in enumerate(sums[:nsums]):
         out.append({"expr": ["add" if j % 3 else "sub", s, t]})
+    out += ff_sum_specs()
     return out
+
+
+def ff_sum_specs():
+    """Sums / differences with forceflat on the LEFT, on the RIGHT, on both
+    (equal; conflicting ones raise and are in the 'must raise' attribute cases),
+    then .H, scaling and products of the sum."""
+    out = []
+    fam = [{"extra": "D54"}] + [{"extra": "I54/ff=%s" % ff} for ff in (None, True, False)]
+    D = fam[0]
+    ffof = {"D54": None, "I54/ff=None": None, "I54/ff=True": True, "I54/ff=False": False}
+    for L in fam:
+        for Rr in fam:
+            if not merge_ok(ffof[L["extra"]], ffof[Rr["extra"]]) or (L is Rr and L is D):
+                continue
+            S = {"expr": ["add", L, Rr]}
+            out += [S, {"expr": ["sub", L, Rr]}]
+            if L is not Rr:
+                out += [{"expr": ["H", S]}, {"expr": ["scal", S]}, {"expr": ["mul", S, D]},
+                        {"expr": ["mul", {"expr": ["add", L, {"expr": ["scal", Rr]}]}, D]}]
+    for ff in (None, True, False):
+        B = {"extra": "BlockDiagND/ff=%s" % ff}
+        out += [{"expr": ["add", B, {"extra": "Diag223"}]}, {"expr": ["add", {"extra": "Diag223"}, B]},
+                {"expr": ["H", {"expr": ["sub", {"extra": "Diag223"}, B]}]}]
+    return out
+
+
+_FFCACHE = {}
+
+
+def model_ff(spec):
+    """forceflat of an expression by the MODEL's rule (DotDispatch.merge_ff for
+    products and sums, unchanged by adjoint / transpose / scaling / power); leaves: observed.
+    Returns "conflict" when the construction must raise."""
+    k = json.dumps(spec, sort_keys=True)
+    if k in _FFCACHE:
+        return _FFCACHE[k]
+    if "expr" not in spec:
+        ff = build(spec).forceflat
+        r = None if ff is None else bool(ff)
+    else:
+        op, *args = spec["expr"]
+        fs = [model_ff(a) for a in args]
+        if "conflict" in fs:
+            r = "conflict"
+        elif op in ("mul", "add", "sub"):
+            a, b = fs
+            r = "conflict" if not merge_ok(a, b) else (a if a is not None else b)
+        else:
+            r = fs[0]
+    _FFCACHE[k] = r
+    return r
 
 
 def merge_ok(fa, fb):
@@ -437,6 +496,59 @@ def mkinput(op, shape, tag):
     cplx = np.iscomplexobj(np.ones(1, dtype=op.dtype))
     x = zoo.cvec(("c04x", tag, shape), n) if cplx else zoo.ivec(("c04x", tag, shape), n)
     return x.reshape(shape)
+
+
+def dkind(a):
+    return {"float32": 0, "float64": 1, "complex64": 2, "complex128": 3}.get(np.asarray(a).dtype.name, 9)
+
+
+def richer_input(op, shape, tag):
+    """Columns of a RICHER dtype than the operator's: float64 (not float32-representable)
+    for a float32 operator, complex128 for a float64 operator; None otherwise."""
+    dt = np.dtype(getattr(op, "dtype", None) or "float64")
+    n = prod(shape)
+    if dt == np.float32:
+        return (zoo.ivec(("c04rich", tag, shape), n) / 3.0 + 0.1).reshape(shape)
+    if dt == np.float64:
+        return zoo.cvec(("c04rich", tag, shape), n).reshape(shape)
+    return None
+
+
+def richer_calls(op, X, dims):
+    """(label, thunk) of the three ways of applying op to the (N, k) columns X"""
+    k = X.shape[1]
+    return [("richer:matmat", lambda: op.matmat(X)),
+            ("richer:dot", lambda: apply_dot(op, X, True)[3]),
+            ("richer:dotnd", lambda: apply_dot(op, X.reshape(tuple(dims) + (k,)), True)[3])]
+
+
+def richer_cases(op, spec, a, key):
+    """matmat / Op @ X / Op @ X[dims+(k,)] on columns of a richer dtype vs column-by-column matvec
+    (values and dtype kind) -- only where plain matvec itself accepts such a column."""
+    M, N = a["shape"]
+    X = richer_input(op, (N, 2), key + "rich")
+    if X is None or M * N > 900 or not getattr(op, "clinear", True):
+        return []
+    try:
+        cols = [np.asarray(op.matvec(X[:, j].copy())).ravel() for j in range(2)]
+        if any(c.shape != (M,) for c in cols):
+            return []
+    except Exception:
+        return []
+    kc = dkind(np.stack(cols))
+    out = []
+    for label, f in richer_calls(op, X, a["dims"]):
+        xs = (N, 2) if label != "richer:dotnd" else tuple(a["dims"]) + (2,)
+        if label != "richer:matmat" and not isinstance(expectation(a["dims"], a["dimsd"], a["ff"], True, xs), tuple):
+            continue        # this layout is not promised a result (e.g. forceflat=True rejects dims+(k,))
+        try:
+            y = f()
+            y = np.zeros(0) if y is None else np.asarray(y)
+        except Exception:
+            y = np.zeros(0)
+        out.append({"spec": spec, "what": label, "M": M, "got": y.ravel(), "cols": cols, "xs": [N, 2], "flag": True,
+                    "kg": dkind(y) if y.size else 9, "kc": kc})
+    return out
 
 
 def classify(e):
@@ -550,6 +662,10 @@ def gather_ops(tier):
         M, N = a["shape"]
         dims, dimsd, ff = a["dims"], a["dimsd"], a["ff"]
         is_leaf = "expr" not in spec
+        if not is_leaf:
+            ffm = model_ff(spec)
+            if ffm != "conflict":
+                ff = ffm        # dot_dispatch is evaluated on the MODEL's merged forceflat
         # ---- attributes
         attr.append({"kind": 0, "a": a, "b": a, "res": a, "spec": spec})
         if "expr" in spec:
@@ -609,6 +725,9 @@ def gather_ops(tier):
                                     "got": y.ravel(), "cols": cols, "xs": list(xs), "flag": True})
                     except Exception:
                         pass
+        # ---- columns of a richer dtype than the operator's (values and dtype kind)
+        if is_leaf or oi % 4 == 0:
+            val.extend(richer_cases(op, spec, a, key))
         # ---- Op.H @ (dimsd-shaped) = dims-shaped, values vs rmatvec
         if is_leaf and M * N <= 900:
             try:
@@ -816,8 +935,9 @@ def replay(rp):
         a = attrs_of(op)
         x = mkinput(op, tuple(rp["xs"]), "replay")
         cls, route, shp, y = apply_dot(op, x, rp["flag"])
-        exp = expectation(a["dims"], a["dimsd"], a["ff"], rp["flag"], rp["xs"])
-        print("operator attrs:", a, "| input shape:", rp["xs"], "flag:", rp["flag"])
+        ffm = rp.get("attrs", {}).get("forceflat", a["ff"])
+        exp = expectation(a["dims"], a["dimsd"], ffm, rp["flag"], rp["xs"])
+        print("operator attrs:", a, "| forceflat by the merge rule:", ffm, "| input shape:", rp["xs"], "flag:", rp["flag"])
         print("observed:", cls, shp, " property demands:", exp)
         bad = contradicts(exp, cls, shp) if exp is not None else (cls, list(shp or [])) == (rp["observed"]["cls"], rp["observed"]["shape"] or [])
     elif k == "mv":
@@ -835,7 +955,7 @@ def replay(rp):
         bad = not attr_ok(a, rp["demanded"])
     elif k == "val":
         op = build(rp["spec"])
-        x = mkinput(op, tuple(rp["xs"]), rp["tag"])
+        x = rp["tag"] if rp.get("call", "").startswith("richer:") else mkinput(op, tuple(rp["xs"]), rp["tag"])
         bad = value_defect(op, x, rp["flag"], rp.get("call", "dot")) > 1e-9
     elif k == "set":
         res = run_setters(rp["ops"])
@@ -871,7 +991,18 @@ def sol_bad(c):
 def value_defect(op, x, flag, how):
     a = attrs_of(op)
     M, N = a["shape"]
-    if how == "dot":
+    if how.startswith("richer:"):
+        X = richer_input(op, (N, 2), x)
+        ref = np.stack([np.asarray(op.matvec(X[:, j].copy())).ravel() for j in range(2)], axis=1)
+        try:
+            y = np.asarray(dict(richer_calls(op, X, a["dims"]))[how]())
+        except Exception as e:
+            print("raised", type(e).__name__, e)
+            return 1.0
+        print("dtype of result:", y.dtype, " dtype of column-by-column matvec:", ref.dtype)
+        if y.size != ref.size or dkind(y) != dkind(ref):
+            return 1.0
+    elif how == "dot":
         cls, route, shp, y = apply_dot(op, x, flag)
         X2 = x.reshape(N, -1)
         ref = np.stack([np.asarray(op.matvec(X2[:, j].copy())).ravel() for j in range(X2.shape[1])], axis=1)
@@ -905,8 +1036,8 @@ def attr_demand(c):
         if a["shape"] != b["shape"]:
             return "ValueError"
         if not merge_ok(a["ff"], b["ff"]):
-            return None
-        return {"shape": a["shape"]}
+            return "ValueError"
+        return {"shape": a["shape"], "ff": a["ff"] if a["ff"] is not None else b["ff"]}
     if k == 5:
         return {"dims": a["dims"], "dimsd": a["dimsd"], "shape": a["shape"]}
     return None
@@ -960,8 +1091,8 @@ def main(tier):
     for c in solc:
         add("sol", c, sol_lit)
     for c in G["val"]:
-        add("val", c, lambda i, c: "{| v_id := @ID@; v_M := %d; v_got := %s; v_cols := [%s] |}" % (
-            c["M"], glist(c["got"]), ";\n  ".join(glist(col) for col in c["cols"])))
+        add("val", c, lambda i, c: "{| v_id := @ID@; v_M := %d; v_got := %s; v_cols := [%s]; v_kg := %d; v_kc := %d |}" % (
+            c["M"], glist(c["got"]), ";\n  ".join(glist(col) for col in c["cols"]), c.get("kg", 0), c.get("kc", 0)))
     # ---- canaries: one deliberately wrong case per main kind; all must come back
     can = {}
     p = ("wd", ("seq", ("obs",), ("raise",)))
@@ -969,7 +1100,8 @@ def main(tier):
     can["dot"] = add("dot", {}, lambda i, c: "{| d_id := @ID@; d_dims := [2; 3]; d_dimsd := [2; 3]; d_ff := None; d_flag := true; d_xs := [2; 3]; d_obs := (ObsOk 0 [6]) |}")
     can["dot2"] = add("dot", {}, lambda i, c: "{| d_id := @ID@; d_dims := [2; 3]; d_dimsd := [2; 3]; d_ff := None; d_flag := true; d_xs := [3; 2]; d_obs := (ObsOk 0 [2; 3]) |}")
     can["attr"] = add("attr", {}, lambda i, c: "{| t_id := @ID@; t_kind := 1; t_a := (mkattrs 4 6 [2; 3] [4] None); t_b := (mkattrs 4 6 [2; 3] [4] None); t_res := (Some (mkattrs 6 4 [2; 3] [4] None)) |}")
-    can["val"] = add("val", {}, lambda i, c: "{| v_id := @ID@; v_M := 2; v_got := [((qz 1), z0); ((qz 2), z0); ((qz 3), z0); ((qz 5), z0)]; v_cols := [[((qz 1), z0); ((qz 3), z0)]; [((qz 2), z0); ((qz 4), z0)]] |}")
+    can["val"] = add("val", {}, lambda i, c: "{| v_id := @ID@; v_M := 2; v_got := [((qz 1), z0); ((qz 2), z0); ((qz 3), z0); ((qz 5), z0)]; v_cols := [[((qz 1), z0); ((qz 3), z0)]; [((qz 2), z0); ((qz 4), z0)]]; v_kg := 0; v_kc := 0 |}")
+    can["val2"] = add("val", {}, lambda i, c: "{| v_id := @ID@; v_M := 1; v_got := [((qz 1), z0)]; v_cols := [[((qz 1), z0)]]; v_kg := 1; v_kc := 3 |}")
     can["set"] = add("set", {}, lambda i, c: "{| s_id := @ID@; s_ops := [(SShape 3 4); (SDims [5])]; s_res := (Some (Some (mkattrs 3 4 [5] [3] None))) |}")
     can["sol"] = add("sol", {}, lambda i, c: "{| w_id := @ID@; w_dims := [2; 3]; w_ff := None; w_x0 := None; w_shape := [6]; w_inside := false; w_before := true; w_after := true |}")
 
@@ -1064,10 +1196,12 @@ def main(tier):
             R.violation("solver N-d wrapper: %s x0=%s -> result shape %s, flag inside=%s (or non-flat b/x0 passed), before=%s after=%s (solver raised: %s)"
                         % (json.dumps(c["spec"])[:160], c["x0"], c["shape"], c["inside"], c["before"], c["after"], c["boom"]), rp)
         elif kind == "val":
-            how = "H" if c["what"].startswith("Op.H") else (c["what"].split()[0] if c["what"].split()[0] in ("matmat", "rmatmat") else "dot")
-            key = json.dumps(c["spec"], sort_keys=True) + {"dot": "", "H": "H", "matmat": "mv", "rmatmat": "mv"}[how]
+            how = c["what"] if c["what"].startswith("richer:") else "H" if c["what"].startswith("Op.H") else (c["what"].split()[0] if c["what"].split()[0] in ("matmat", "rmatmat") else "dot")
+            key = json.dumps(c["spec"], sort_keys=True) + {"dot": "", "H": "H", "matmat": "mv", "rmatmat": "mv"}.get(how, "rich")
             rp = {"kind": "val", "spec": c["spec"], "xs": c["xs"], "flag": c["flag"], "call": how, "tag": key, "what_case": c["what"]}
-            R.violation("values: %s of %s on input shape %s differs from column-wise flat matvec" % (c["what"], json.dumps(c["spec"])[:160], c["xs"]), rp)
+            R.violation("values: %s of %s on input shape %s differs from column-wise flat matvec%s" % (
+                c["what"], json.dumps(c["spec"])[:160], c["xs"],
+                " (columns of a richer dtype than the operator's; result dtype kind %s vs %s)" % (c.get("kg"), c.get("kc")) if how.startswith("richer:") else ""), rp)
         nviol += 1
 
     if codes:
